@@ -733,6 +733,10 @@ class ModuleVistor(NodeVisitor):
             obj = None
         else:
             obj = self.system.objForFullName(full_name)
+            if isinstance(obj, model.Module):
+                # The module has been executed by the time its __doc__ is assigned: analyse it
+                # first, its own docstring is then replaced like Python replaces it.
+                self.system.getProcessedModule(full_name)
             if obj is None:
                 warn("Unable to figure out target for __doc__ assignment: "
                      "computed full name not found: " + full_name)
